@@ -219,7 +219,7 @@ Proof.
   - cbn [forallb] in I. apply andb_true_iff in I as [I1 I2].
     destruct (idle_step c s dl e RR A I1) as (s1 & ST & A1 & N1).
     destruct (IH s1 dl RR A1 I2) as (s2 & TR & A2 & N2).
-    exists s2. rewrite t_run_cons, ST, TR. cbn [app]. repeat split; auto.
+    exists s2. rewrite t_run_cons, ST, TR. cbn [app]. split; [reflexivity|]. split; [exact A2|].
     rewrite N2, N1. unfold ticks. cbn [filter]. destruct (is_tick e); cbn [length]; lia.
 Qed.
 
@@ -244,19 +244,17 @@ Proof.
   intros RR A I. destruct (idle_run c evs s dl RR A I) as (s1 & TR & A1 & N1).
   exists s1. repeat split; auto.
   - now destruct A1 as (_ & _ & _ & _ & T).
-  - intros L r. now apply armed_fires.
+  - intros L r. now apply (armed_fires c s1 dl r).
 Qed.
 
 (* the first poll of an idle connection with keep-alive arms the timer *)
 Lemma init_arms c : cfg_ka c <> 0 ->
   exists s, t_run c (t_init c) [Recv false 0] = Ok (s, []) /\ armed s (cfg_ka c).
 Proof.
-  intros K. apply N.eqb_neq in K.
-  cbn [t_run timer_step t_init stopped dsp_timeout bind].
-  unfold update_timer. cbn [read_timeout read_remains ka_enabled ka_timeout].
-  rewrite K. cbn [negb andb N.eqb]. rewrite N.eqb_refl. cbn [andb negb].
-  unfold start_timer, set_timer. cbn. rewrite K.
-  eexists. split; [reflexivity|]. unfold armed. cbn. repeat split; auto.
+  intros K. destruct c as [ka rr]. cbn [cfg_ka] in *. apply N.eqb_neq in K.
+  unfold t_run, timer_step, t_init, update_timer, start_timer, set_timer. cbn. rewrite K. cbn.
+  rewrite N.eqb_refl. cbn [andb]. eexists. split; [reflexivity|].
+  unfold armed. cbn. rewrite N.add_0_l. repeat split; reflexivity.
 Qed.
 
 (* a frame followed in the same read by the first byte of the next one clears KA_TIMEOUT and leaves
@@ -309,14 +307,9 @@ Proof.
   intros K Q c.
   assert (P : exists s0, t_run c (t_init c) [Recv false 0; Recv true 1; Recv false 1] = Ok (s0, []) /\ unarmed s0).
   { apply N.eqb_neq in K. unfold c.
-    cbn [t_run timer_step t_init stopped dsp_timeout bind cfg_ka].
-    unfold update_timer at 1. cbn [read_timeout read_remains ka_enabled ka_timeout].
-    rewrite K. cbn [negb andb]. rewrite N.eqb_refl. cbn [andb negb].
-    unfold start_timer, set_timer. cbn [cfg_ka now stopped ka_enabled ka_timeout read_timeout read_remains
-      read_remains_prev read_max_timeout timer dsp_timeout]. rewrite K.
-    cbn [stopped dsp_timeout bind]. unfold update_timer at 1.
-    cbn [stopped dsp_timeout bind].
-    unfold update_timer. cbn [read_timeout read_remains cfg_rr]. cbn.
+    unfold t_run, timer_step, t_init, update_timer, start_timer, set_timer. cbn. rewrite K. cbn.
+    rewrite N.eqb_refl. cbn [andb]. cbn. rewrite N.eqb_refl.
+    change (1 =? 0) with false. cbn [andb].
     eexists. split; [reflexivity|]. unfold unarmed. cbn. auto. }
   destruct P as (s0 & TR0 & U0).
   destruct (silence_run c evs s0 eq_refl U0 Q) as (s1 & TR1 & U1).
@@ -326,25 +319,44 @@ Qed.
 (* ---------------------------------------------------------------- C20_live_never_timed_out *)
 Definition live_inv (ka cnt : N) (s : tstate) : Prop :=
   (ka_timeout s = true -> read_timeout s = false -> forall dl, timer s = Some dl -> now s + ka <= dl + cnt) /\
-  (dsp_timeout s = true -> ka_timeout s = true -> read_timeout s = true).
+  (dsp_timeout s = true -> ka_timeout s = true -> read_timeout s = true) /\
+  (stopped s = true -> timer s = None).
 
 Definition plain_ev (e : tevent) : bool := negb (is_paused e) && negb (is_inject e).
 
+Lemma update_timer_stopped c s item r : stopped (update_timer c s item r) = stopped s.
+Proof.
+  unfold update_timer. destruct item; [reflexivity|].
+  destruct (read_timeout s); [reflexivity|].
+  destruct ((read_remains s =? 0) && (r =? 0)).
+  - destruct (ka_enabled s && negb (ka_timeout s)); reflexivity.
+  - destruct (cfg_rr c); reflexivity.
+Qed.
+
 Lemma update_timer_live c ka cnt s r :
-  cfg_ka c = ka -> ka <> 0 -> dsp_timeout s = false ->
+  cfg_ka c = ka -> ka <> 0 -> dsp_timeout s = false -> stopped s = false ->
   live_inv ka cnt s -> live_inv ka cnt (update_timer c s false r).
 Proof.
-  intros CK K0 D (I1 & I2). unfold update_timer.
+  intros CK K0 D S LI. pose proof LI as (I1 & I2 & I3).
+  assert (S3 : stopped (update_timer c s false r) = true -> timer (update_timer c s false r) = None)
+    by (rewrite update_timer_stopped; congruence).
+  revert S3. unfold update_timer.
   destruct (read_timeout s) eqn:R.
-  - split; cbn; intros; try congruence.
+  - intros S3. split; [|split]; cbn; intros; try congruence.
   - destruct ((read_remains s =? 0) && (r =? 0)).
     + destruct (ka_enabled s && negb (ka_timeout s)) eqn:E.
-      * unfold start_timer, set_timer. cbn. rewrite CK. apply N.eqb_neq in K0. rewrite K0.
-        split; cbn; intros; try congruence. injection H1 as <-. lia.
-      * split; auto.
+      * intros S3. split; [|split]; [| |exact S3].
+        -- unfold start_timer, set_timer. cbn. rewrite CK. apply N.eqb_neq in K0. rewrite K0.
+           intros _ _ dl H1. destruct (timer s) as [d0|].
+           ++ destruct ((d0 =? now s + ka) || (d0 =? now s + ka + 1)) eqn:Q.
+              ** injection H1 as <-. apply orb_true_iff in Q as [Q|Q]; apply N.eqb_eq in Q; lia.
+              ** injection H1 as <-. lia.
+           ++ injection H1 as <-. lia.
+        -- unfold start_timer, set_timer. cbn. intros; congruence.
+      * intros _. exact LI.
     + destruct (cfg_rr c) as [p|].
-      * unfold start_timer, set_timer. split; cbn; intros; congruence.
-      * split; auto.
+      * intros S3. split; [|split]; [| |exact S3]; unfold start_timer, set_timer; cbn; intros; congruence.
+      * intros _. exact LI.
 Qed.
 
 Lemma live_step c ka cnt s e s1 o :
@@ -353,14 +365,16 @@ Lemma live_step c ka cnt s e s1 o :
   ~ In StopKeepAlive o /\
   live_inv ka (match e with Tick => cnt + 1 | Recv true _ => 0 | _ => cnt end) s1.
 Proof.
-  intros CK K0 CL PE (I1 & I2) H.
+  intros CK K0 CL PE LI H. pose proof LI as (I1 & I2 & I3).
+  assert (STOPPED : forall cnt', stopped s = true -> live_inv ka cnt' s).
+  { intros cnt' S. split; [|split]; auto. intros _ _ dl T. rewrite (I3 S) in T. discriminate. }
   destruct e; cbn [timer_step] in H; try discriminate PE.
   - (* Recv *)
     destruct (stopped s) eqn:S.
-    { injection H as <- <-. split; [intros []|]. destruct item; split; auto.
-      intros KT RT dl T. specialize (I1 KT RT dl T). lia. }
+    { injection H as <- <-. split; [intros []|]. destruct item; apply STOPPED; reflexivity. }
     destruct item.
-    + injection H as <- <-. split; [intros []|]. unfold update_timer. split; cbn; intros; congruence.
+    + injection H as <- <-. split; [intros []|]. unfold update_timer.
+      split; [|split]; cbn; intros; congruence.
     + destruct (dsp_timeout s) eqn:D.
       * destruct (handle_timeout_cases c (clear_dsp s)) as [P | (s2 & o2 & HT & E2 & K2 & R2 & D2 & N2 & Cs)];
           [rewrite P in H; discriminate|].
@@ -371,16 +385,18 @@ Proof.
           - intros [X|[]]. discriminate.
           - cbn in RT, KT. specialize (I2 eq_refl KT). congruence. }
         assert (L2 : live_inv ka cnt s2).
-        { split.
+        { split; [|split].
           - intros KT RT dl T. rewrite K2 in KT. rewrite R2 in RT. specialize (I2 eq_refl KT). congruence.
-          - intros DD. congruence. }
-        destruct (stopped s2).
+          - intros DD. congruence.
+          - intros S2. destruct Cs as [(_ & S2') | [(_ & _ & _ & T2) | (_ & _ & _ & _ & T2)]]; auto.
+            cbn in S2'. congruence. }
+        destruct (stopped s2) eqn:S2.
         -- injection H as <- <-. auto.
         -- injection H as <- <-. split; [auto|]. apply update_timer_live; auto.
-      * injection H as <- <-. split; [intros []|]. apply update_timer_live; auto. split; auto.
+      * injection H as <- <-. split; [intros []|]. apply update_timer_live; auto.
   - (* Timeout *)
-    destruct (stopped s); [injection H as <- <-; split; [intros []|split; auto]|].
-    destruct (dsp_timeout s) eqn:D; [|injection H as <- <-; split; [intros []|split; auto]].
+    destruct (stopped s) eqn:S; [injection H as <- <-; split; [intros []|exact LI]|].
+    destruct (dsp_timeout s) eqn:D; [|injection H as <- <-; split; [intros []|exact LI]].
     destruct (handle_timeout_cases c (clear_dsp s)) as [P | (s2 & o2 & HT & E2 & K2 & R2 & D2 & N2 & Cs)];
       [rewrite P in H; discriminate|].
     rewrite HT in H. injection H as <- <-. cbn in E2, K2, R2, D2, N2. split.
@@ -388,22 +404,24 @@ Proof.
       * intros [].
       * intros [X|[]]. discriminate.
       * cbn in RT, KT. specialize (I2 eq_refl KT). congruence.
-    + split.
+    + split; [|split].
       * intros KT RT dl T. rewrite K2 in KT. rewrite R2 in RT. specialize (I2 eq_refl KT). congruence.
       * intros DD. congruence.
+      * intros S2. destruct Cs as [(_ & S2') | [(_ & _ & _ & T2) | (_ & _ & _ & _ & T2)]]; auto.
+        cbn in S2'. congruence.
   - (* Halt *)
-    injection H as <- <-. split; [intros []|]. split; cbn; intros; try congruence. auto.
+    injection H as <- <-. split; [intros []|]. split; [|split]; cbn; intros; try congruence. auto.
   - (* Tick *)
-    injection H as <- <-. split; [intros []|]. split; cbn; auto.
+    injection H as <- <-. split; [intros []|]. split; [|split]; cbn; auto.
     intros KT RT dl T. specialize (I1 KT RT dl T). lia.
   - (* TimerFired *)
     destruct (timer s) as [dl|] eqn:T.
     + destruct (dl <=? now s) eqn:L.
-      * injection H as <- <-. split; [intros []|]. split; cbn; intros; try congruence.
+      * injection H as <- <-. split; [intros []|]. split; [|split]; cbn; intros; try congruence.
         destruct (read_timeout s) eqn:RT; [reflexivity|]. exfalso.
         specialize (I1 H0 eq_refl dl eq_refl). apply N.leb_le in L. lia.
-      * injection H as <- <-. split; [intros []|]. split; auto.
-    + injection H as <- <-. split; [intros []|]. split; auto.
+      * injection H as <- <-. split; [intros []|]. exact LI.
+    + injection H as <- <-. split; [intros []|]. exact LI.
 Qed.
 
 Lemma live_run c ka evs : forall cnt s s' outs,
@@ -437,7 +455,7 @@ Lemma live_never_timed_out c evs s' outs :
 Proof.
   intros K0 PE G H.
   eapply (live_run c (cfg_ka c) evs 0 (t_init c)); eauto; [lia|].
-  split; unfold t_init; cbn; intros; congruence.
+  split; [|split]; unfold t_init; cbn; intros; congruence.
 Qed.
 
 Lemma live_refuted_not_ready :
@@ -449,25 +467,23 @@ Proof. split; [reflexivity|]. eexists. vm_compute. reflexivity. Qed.
 (* ---------------------------------------------------------------- C20_slow_frame_times_out / fast_enough_extends *)
 Definition expired_read (s : tstate) : Prop :=
   stopped s = false /\ read_timeout s = true /\ dsp_timeout s = true.
-
 Lemma slow_frame_times_out c p s r :
   cfg_rr c = Some p -> expired_read s ->
   read_remains_prev s <= read_remains s ->
   read_remains s - read_remains_prev s <= rr_rate p ->
   exists s1, timer_step c s (Recv false r) = Ok (s1, [StopRead]) /\ stopped s1 = true /\ timer s1 = None.
 Proof.
-  intros RR (S & R & D) L T. cbn [timer_step]. rewrite S, D.
-  unfold handle_timeout, clear_dsp. cbn [read_timeout read_remains read_remains_prev]. rewrite R, RR.
+  intros RR (S & R & D) L T. destruct s as [ke kt rt rm rp mx tm dsp nw st]. cbn in *. subst.
+  unfold handle_timeout, clear_dsp. cbn. rewrite RR.
   unfold sub_chk. apply N.leb_le in L. rewrite L. cbn [bind].
-  assert (X : rr_rate p <? read_remains s - read_remains_prev s = false) by (apply N.ltb_ge; lia).
-  rewrite X. cbn [bind halt stopped]. eexists. split; [reflexivity|]. cbn. auto.
+  assert (X : rr_rate p <? rm - rp = false) by (apply N.ltb_ge; lia).
+  rewrite X. cbn. eexists. split; [reflexivity|]. cbn. auto.
 Qed.
-
 Definition next_max (p : rr_cfg) (s : tstate) : N :=
   if rr_max p =? 0 then read_max_timeout s else read_max_timeout s - rr_timeout p.
 
 Lemma fast_enough_extends c p s r :
-  cfg_rr c = Some p -> expired_read s ->
+  cfg_rr c = Some p -> expired_read s -> timer s = None ->
   read_remains_prev s <= read_remains s ->
   rr_rate p < read_remains s - read_remains_prev s ->
   (rr_max p = 0 \/ next_max p s <> 0) ->
@@ -476,17 +492,16 @@ Lemma fast_enough_extends c p s r :
     read_remains_prev s1 = read_remains s /\ read_remains s1 = r mod U32 /\
     read_max_timeout s1 = next_max p s /\ read_timeout s1 = true.
 Proof.
-  intros RR (S & R & D) L T M. cbn [timer_step]. rewrite S, D.
-  unfold handle_timeout, clear_dsp. cbn [read_timeout read_remains read_remains_prev read_max_timeout].
-  rewrite R, RR. unfold sub_chk. apply N.leb_le in L. rewrite L. cbn [bind].
+  intros RR (S & R & D) TN L T M. destruct s as [ke kt rt rm rp mx tm dsp nw st]. unfold next_max in *. cbn in *. subst.
+  unfold handle_timeout, clear_dsp. cbn. rewrite RR.
+  unfold sub_chk. apply N.leb_le in L. rewrite L. cbn [bind].
   apply N.ltb_lt in T. rewrite T.
-  assert (X : (rr_max p =? 0) || negb ((if rr_max p =? 0 then read_max_timeout s else read_max_timeout s - rr_timeout p) =? 0) = true).
-  { unfold next_max in M. destruct M as [M | M].
+  assert (X : (rr_max p =? 0) || negb ((if rr_max p =? 0 then mx else mx - rr_timeout p) =? 0) = true).
+  { destruct M as [M | M].
     - rewrite M. reflexivity.
     - destruct (rr_max p =? 0); [reflexivity|]. cbn [orb]. apply negb_true_iff. now apply N.eqb_neq. }
-  rewrite X. cbn [bind]. unfold start_timer, set_timer. cbn [stopped]. rewrite S.
-  unfold update_timer. cbn [read_timeout]. rewrite R.
-  eexists. split; [reflexivity|]. cbn. unfold next_max. repeat split; auto.
+  rewrite X. cbn. unfold update_timer. cbn.
+  eexists. split; [reflexivity|]. cbn. repeat split; auto.
 Qed.
 
 Lemma max_timeout_exhausted c p s r :
@@ -496,51 +511,42 @@ Lemma max_timeout_exhausted c p s r :
   rr_max p <> 0 -> next_max p s = 0 ->
   exists s1, timer_step c s (Recv false r) = Ok (s1, [StopRead]) /\ stopped s1 = true /\ timer s1 = None.
 Proof.
-  intros RR (S & R & D) L T M0 M. cbn [timer_step]. rewrite S, D.
-  unfold handle_timeout, clear_dsp. cbn [read_timeout read_remains read_remains_prev read_max_timeout].
-  rewrite R, RR. unfold sub_chk. apply N.leb_le in L. rewrite L. cbn [bind].
-  apply N.ltb_lt in T. rewrite T. unfold next_max in M. apply N.eqb_neq in M0. rewrite M0 in *.
-  rewrite M. cbn [orb negb N.eqb]. rewrite N.eqb_refl. cbn [negb bind halt stopped].
-  eexists. split; [reflexivity|]. cbn. auto.
+  intros RR (S & R & D) L T M0 M. destruct s as [ke kt rt rm rp mx tm dsp nw st]. unfold next_max in *. cbn in *. subst.
+  unfold handle_timeout, clear_dsp. cbn. rewrite RR.
+  unfold sub_chk. apply N.leb_le in L. rewrite L. cbn [bind].
+  apply N.ltb_lt in T. rewrite T. apply N.eqb_neq in M0. rewrite M0 in *.
+  rewrite M. cbn. eexists. split; [reflexivity|]. cbn. auto.
 Qed.
 
 (* ---------------------------------------------------------------- C20_no_underflow *)
-Definition uf_inv (last : N) (s : tstate) : Prop :=
+Definition rd_ok (last : N) (s : tstate) : Prop :=
   read_timeout s = true -> read_remains_prev s <= read_remains s /\ read_remains s <= last.
+Definition uf_inv (last : N) (s : tstate) : Prop := stopped s = false -> rd_ok last s.
 
-Lemma handle_timeout_no_panic c s last :
-  uf_inv last s -> exists s1 o, handle_timeout c s = Ok (s1, o).
+Lemma handle_timeout_ok c s last :
+  rd_ok last s ->
+  exists s1 o, handle_timeout c s = Ok (s1, o) /\
+    (stopped s1 = false -> read_timeout s1 = true -> read_remains_prev s1 <= last) /\
+    dsp_timeout s1 = dsp_timeout s.
 Proof.
-  intros U. destruct (handle_timeout_cases c s) as [P | (s1 & o & H & _)]; [|eauto].
-  exfalso. unfold handle_timeout in P. destruct (read_timeout s) eqn:R.
-  - destruct (cfg_rr c) as [p|]; [|discriminate].
-    destruct (U eq_refl) as [L _]. unfold sub_chk in P. apply N.leb_le in L. rewrite L in P. cbn [bind] in P.
-    destruct (rr_rate p <? _); [destruct (_ || _)|]; discriminate.
-  - destruct (ka_timeout s); discriminate.
-Qed.
-
-(* after handle_timeout the stored counts are bounded by what was buffered *)
-Lemma handle_timeout_bound c s last s1 o :
-  uf_inv last s -> handle_timeout c s = Ok (s1, o) ->
-  read_timeout s1 = read_timeout s /\ (read_timeout s1 = true -> read_remains_prev s1 <= last).
-Proof.
-  intros U H. unfold handle_timeout in H. destruct (read_timeout s) eqn:R.
-  - destruct (U eq_refl) as [L1 L2].
+  intros U. unfold handle_timeout. destruct (read_timeout s) eqn:R.
+  - destruct (U R) as [L1 L2].
     destruct (cfg_rr c) as [p|].
-    + unfold sub_chk in H. destruct (read_remains_prev s <=? read_remains s); [|discriminate]. cbn [bind] in H.
+    + unfold sub_chk. apply N.leb_le in L1. rewrite L1. cbn [bind]. apply N.leb_le in L1.
       destruct (rr_rate p <? _).
-      * destruct (_ || _); injection H as <- <-; unfold start_timer, set_timer; cbn; split; auto; intros; lia.
-      * injection H as <- <-. cbn. split; auto. intros. lia.
-    + injection H as <- <-. split; auto. intros. lia.
-  - destruct (ka_timeout s); injection H as <- <-; cbn; split; auto; congruence.
+      * destruct (_ || _); eexists _, _; (split; [reflexivity|]); unfold start_timer, set_timer; cbn;
+          split; auto; intros; try discriminate; lia.
+      * eexists _, _. split; [reflexivity|]. cbn. split; auto. intros; discriminate.
+    + eexists _, _. split; [reflexivity|]. split; auto. intros. lia.
+  - destruct (ka_timeout s); eexists _, _; (split; [reflexivity|]); cbn; split; auto; intros; congruence.
 Qed.
 
-Lemma update_timer_uf c s r last :
+Lemma update_timer_rd c s r last :
   last <= r -> r < U32 ->
   (read_timeout s = true -> read_remains_prev s <= last) ->
-  uf_inv r (update_timer c s false r).
+  rd_ok r (update_timer c s false r).
 Proof.
-  intros L B P. unfold update_timer, uf_inv.
+  intros L B P. unfold update_timer, rd_ok.
   destruct (read_timeout s) eqn:R.
   - cbn. intros _. rewrite N.mod_small by exact B. specialize (P eq_refl). lia.
   - destruct ((read_remains s =? 0) && (r =? 0)).
@@ -549,8 +555,63 @@ Proof.
       unfold start_timer, set_timer. cbn. intros _. rewrite N.mod_small by exact B. lia.
 Qed.
 
-Lemma uf_weaken last last' s : last <= last' -> uf_inv last s -> uf_inv last' s.
-Proof. intros L U R. destruct (U R). lia. Qed.
+Definition next_last (last : N) (e : tevent) : N := match e with Recv _ r => r | _ => last end.
+Definition ev_ok (last : N) (e : tevent) : bool :=
+  match e with
+  | Recv true r => r <? U32
+  | Recv false r => (last <=? r) && (r <? U32)
+  | _ => true
+  end.
+
+Lemma mono_cons last e t : mono last (e :: t) = ev_ok last e && mono (next_last last e) t.
+Proof. destruct e as [[|] r| | | | | |]; cbn [mono ev_ok next_last andb]; try reflexivity. Qed.
+
+Lemma step_uf c s e last :
+  is_timeout_ev e = false -> ev_ok last e = true -> uf_inv last s ->
+  exists s1 o1, timer_step c s e = Ok (s1, o1) /\ uf_inv (next_last last e) s1.
+Proof.
+  intros NT EO U. destruct e as [item r| | | | | |]; try discriminate NT; cbn [timer_step next_last].
+  - destruct (stopped s) eqn:S.
+    { eexists _, _. split; [reflexivity|]. intros S'. congruence. }
+    specialize (U S). destruct item; cbn [ev_ok] in EO.
+    + eexists _, _. split; [reflexivity|]. intros _. unfold update_timer, rd_ok. cbn. congruence.
+    + apply andb_true_iff in EO as [L B]. apply N.leb_le in L. apply N.ltb_lt in B.
+      destruct (dsp_timeout s) eqn:D.
+      * destruct (handle_timeout_ok c (clear_dsp s) last) as (s1 & o & HT & P & _); [exact U|].
+        rewrite HT. cbn [bind]. destruct (stopped s1) eqn:S1.
+        -- eexists _, _. split; [reflexivity|]. intros S'. congruence.
+        -- eexists _, _. split; [reflexivity|]. intros _. apply (update_timer_rd c s1 r last); auto.
+      * eexists _, _. split; [reflexivity|]. intros _. apply (update_timer_rd c s r last); auto.
+        intros R. destruct (U R). lia.
+  - destruct (stopped s) eqn:S.
+    + eexists _, _. split; [reflexivity|]. intros S'. congruence.
+    + unfold pause. cbn [dsp_timeout]. destruct (dsp_timeout s).
+      * eexists _, _. split; [reflexivity|]. intros S'. cbn in S'. discriminate.
+      * eexists _, _. split; [reflexivity|]. intros _ R. cbn in R. discriminate.
+  - eexists _, _. split; [reflexivity|]. intros S'. cbn in S'. discriminate.
+  - eexists _, _. split; [reflexivity|]. intros S' R. cbn in *. exact (U S' R).
+  - destruct (timer s) as [dl|]; [destruct (dl <=? now s)|]; eexists _, _; (split; [reflexivity|]);
+      intros S' R; cbn in *; exact (U S' R).
+  - eexists _, _. split; [reflexivity|]. intros S' R. cbn in *. exact (U S' R).
+Qed.
+
+Lemma timeout_paused_uf c s last :
+  uf_inv last s ->
+  exists s2 o, t_run c s [Timeout; Paused] = Ok (s2, o) /\ forall l, uf_inv l s2.
+Proof.
+  intros U. cbn [t_run timer_step].
+  destruct (stopped s) eqn:S.
+  - cbn [bind]. rewrite S. cbn [bind]. eexists _, _. split; [reflexivity|]. intros l S'. congruence.
+  - assert (X : exists s1 o1, (if dsp_timeout s then handle_timeout c (clear_dsp s) else Ok (s, [])) = Ok (s1, o1)).
+    { destruct (dsp_timeout s); [|eauto].
+      destruct (handle_timeout_ok c (clear_dsp s) last) as (s1 & o & HT & _); [exact (U S)|]. eauto. }
+    destruct X as (s1 & o1 & ->). cbn [bind].
+    destruct (stopped s1) eqn:S1.
+    + cbn [bind]. eexists _, _. split; [reflexivity|]. intros l S'. congruence.
+    + unfold pause. cbn [dsp_timeout]. destruct (dsp_timeout s1); cbn [bind].
+      * eexists _, _. split; [reflexivity|]. intros l S'. cbn in S'. discriminate.
+      * eexists _, _. split; [reflexivity|]. intros l _ R. cbn in R. discriminate.
+Qed.
 
 Lemma no_underflow_gen c n : forall evs last s,
   (length evs <= n)%nat -> loop_ok evs = true -> mono last evs = true -> uf_inv last s ->
@@ -560,23 +621,161 @@ Proof.
   - destruct evs; [eexists; reflexivity | cbn in LN; lia].
   - destruct evs as [|e r]; [eexists; reflexivity|].
     cbn [length] in LN. apply le_S_n in LN.
-    assert (STEP : forall s1 o1 last1, timer_step c s e = Ok (s1, o1) -> loop_ok r = true ->
-                    mono last1 r = true -> uf_inv last1 s1 -> exists x, t_run c s (e :: r) = Ok x).
-    { intros s1 o1 last1 ST LO1 MO1 U1. rewrite t_run_cons, ST.
-      destruct (IH r last1 s1 LN LO1 MO1 U1) as ([s2 o2] & TR). rewrite TR. eauto. }
-    destruct e as [item rm| | | | | |].
-    + (* Recv *)
-      cbn [loop_ok] in LO.
-      destruct item; cbn [mono] in MO.
-      * apply andb_true_iff in MO as [B MO]. cbn [timer_step] in STEP.
-        destruct (stopped s) eqn:S.
-        -- eapply (STEP s [] rm); eauto. intros R. destruct (U R). admit.
-        -- eapply (STEP _ [] rm); eauto. unfold update_timer, uf_inv. cbn. congruence.
-      * admit.
-    + admit.
-    + admit.
-    + admit.
-    + admit.
-    + admit.
-    + admit.
-Abort.
+    destruct (is_timeout_ev e) eqn:TE.
+    + destruct e; try discriminate TE. cbn [loop_ok] in LO.
+      destruct r as [|e2 r2]; [discriminate LO|]. destruct e2; try discriminate LO.
+      cbn [mono] in MO.
+      destruct (timeout_paused_uf c s last U) as (s2 & o & TR & U2).
+      assert (LN2 : (length r2 <= n)%nat) by (cbn [length] in LN; lia).
+      destruct (IH r2 last s2 LN2 LO MO (U2 last)) as ([s3 o3] & TR3).
+      change (Timeout :: Paused :: r2) with ([Timeout; Paused] ++ r2).
+      revert TR TR3. generalize [Timeout; Paused]. intros pre TR TR3.
+      assert (A : forall a b st, t_run c st (a ++ b) =
+                match t_run c st a with
+                | Ok (s1, o1) => match t_run c s1 b with Ok (s2, o2) => Ok (s2, o1 ++ o2) | Err x => Err x | Panic x => Panic x end
+                | Err x => Err x | Panic x => Panic x end).
+      { induction a as [|x a IHa]; intros b st.
+        - cbn [app t_run]. destruct (t_run c st b) as [[? ?]| |]; reflexivity.
+        - cbn [app]. rewrite !t_run_cons. destruct (timer_step c st x) as [[s1 o1]| |]; [|reflexivity|reflexivity].
+          rewrite IHa. destruct (t_run c s1 a) as [[s4 o4]| |]; [|reflexivity|reflexivity].
+          destruct (t_run c s4 b) as [[s5 o5]| |]; [|reflexivity|reflexivity]. now rewrite app_assoc. }
+      rewrite A, TR, TR3. eauto.
+    + rewrite mono_cons in MO. apply andb_true_iff in MO as [EO MO].
+      assert (LO' : loop_ok r = true) by (destruct e; try discriminate TE; exact LO).
+      destruct (step_uf c s e last TE EO U) as (s1 & o1 & ST & U1).
+      destruct (IH r _ s1 LN LO' MO U1) as ([s2 o2] & TR).
+      rewrite t_run_cons, ST, TR. eauto.
+Qed.
+
+Lemma no_underflow c evs :
+  loop_ok evs = true -> mono 0 evs = true -> exists r, t_run c (t_init c) evs = Ok r.
+Proof.
+  intros LO MO. apply (no_underflow_gen c (length evs) evs 0 (t_init c)); auto.
+  intros _ R. unfold t_init in R. cbn in R. discriminate.
+Qed.
+
+Lemma no_underflow_refuted_header :
+  let c := mkTcfg 0 (Some (mkRr 1 0 0)) in
+  let evs := [Recv false 1; Tick; TimerFired; Recv false 1; Recv false 0; Tick; TimerFired; Recv false 0] in
+  loop_ok evs = true /\ t_run c (t_init c) evs = Panic PS_sub_overflow.
+Proof. split; vm_compute; reflexivity. Qed.
+
+Lemma no_underflow_refuted_backpressure :
+  let c := mkTcfg 0 (Some (mkRr 1 0 0)) in
+  let evs := [Recv false 3; Tick; TimerFired; Timeout; Tick; TimerFired; Recv false 3] in
+  mono 0 evs = true /\ t_run c (t_init c) evs = Panic PS_sub_overflow.
+Proof. split; vm_compute; reflexivity. Qed.
+
+(* ---------------------------------------------------------------- C20_keepalive_factor *)
+Lemma keepalive_factor ka :
+  ka <= U16MAX ->
+  ack_keepalive ka = if ka =? 0 then 30 else N.min (ka + ka / 2) 65535.
+Proof.
+  intros B. unfold ack_keepalive, sat_add16, DEFAULT_KEEPALIVE, U16MAX in *.
+  destruct (ka =? 0); [reflexivity|].
+  rewrite N.shiftr_div_pow2. change (2 ^ 1) with 2.
+  destruct (ka / 2 + ka <=? 65535) eqn:E.
+  - apply N.leb_le in E. set (h := ka / 2) in *. rewrite N.min_l by lia. lia.
+  - apply N.leb_gt in E. set (h := ka / 2) in *. rewrite N.min_r by lia. reflexivity.
+Qed.
+
+Lemma keepalive_factor_bounds ka :
+  0 < ka -> ka <= U16MAX -> ka <= ack_keepalive ka <= U16MAX /\ (ka < 43690 -> 2 * ack_keepalive ka + 1 >= 3 * ka).
+Proof.
+  intros P B. rewrite keepalive_factor by exact B. unfold U16MAX in *.
+  assert (Z : ka =? 0 = false) by (apply N.eqb_neq; lia). rewrite Z.
+  pose proof (N.div_mod ka 2 ltac:(lia)) as DM.
+  pose proof (N.mod_upper_bound ka 2 ltac:(lia)) as MB.
+  set (h := ka / 2) in *. set (m := ka mod 2) in *.
+  split.
+  - split; [apply N.min_glb; lia | apply N.le_min_r].
+  - intros L. rewrite N.min_l by lia. lia.
+Qed.
+
+(* ---------------------------------------------------------------- connect timeout *)
+Lemma connect_times_out ct : forall w rest,
+  ct <> 0 -> w < ct ->
+  connect_phase ct w (repeat CTick (N.to_nat (ct - w)) ++ rest) = Some CDropped.
+Proof.
+  intros w rest NZ. remember (N.to_nat (ct - w)) as n eqn:En. revert w En.
+  induction n as [|n IH]; intros w En L.
+  - lia.
+  - cbn [repeat app connect_phase].
+    assert (Z : ct =? 0 = false) by now apply N.eqb_neq. rewrite Z. cbn [negb andb].
+    destruct (ct <=? w + 1) eqn:E; [reflexivity|].
+    apply N.leb_gt in E. apply IH; lia.
+Qed.
+
+Lemma connect_no_early_drop ct : forall n w,
+  (ct = 0 \/ w + N.of_nat n < ct) -> connect_phase ct w (repeat CTick n ++ [CConnect]) = Some CAccepted.
+Proof.
+  induction n as [|n IH]; intros w H.
+  - reflexivity.
+  - cbn [repeat app connect_phase].
+    assert (E : negb (ct =? 0) && (ct <=? w + 1) = false).
+    { destruct H as [-> | H]; [reflexivity|]. apply andb_false_iff. right. apply N.leb_gt. lia. }
+    rewrite E. apply IH. destruct H; [auto|right; lia].
+Qed.
+
+(* ---------------------------------------------------------------- client keep-alive loop *)
+Lemma ping_cadence ka : 0 < ka -> forall n j,
+  j < ka ->
+  k_run ka (mkK true true j) (repeat KTick n) =
+  (mkK true true ((j + N.of_nat n) mod ka), map (fun i => (j + N.of_nat i + 1) mod ka =? 0) (seq 0 n)).
+Proof.
+  intros P. induction n as [|n IH]; intros j L.
+  - cbn. rewrite N.add_0_r, N.mod_small by exact L. reflexivity.
+  - cbn [repeat k_run k_step k_running k_open k_slept].
+    destruct (j + 1 <? ka) eqn:E.
+    + apply N.ltb_lt in E. rewrite (IH (j + 1) E). f_equal.
+      * f_equal. f_equal. lia.
+      * cbn [seq map]. f_equal.
+        -- cbn. rewrite N.add_0_r, N.mod_small by exact E. symmetry. apply N.eqb_neq. lia.
+        -- rewrite <- seq_shift, map_map. apply map_ext. intros i. f_equal. f_equal. lia.
+    + apply N.ltb_ge in E. assert (J : j + 1 = ka) by lia.
+      rewrite (IH 0 P). f_equal.
+      * f_equal. rewrite N.add_0_l.
+        replace (j + N.of_nat (S n)) with (N.of_nat n + 1 * ka) by lia.
+        rewrite N.mod_add by lia. reflexivity.
+      * cbn [seq map]. f_equal.
+        -- cbn. rewrite N.add_0_r, J, N.mod_same by lia. reflexivity.
+        -- rewrite <- seq_shift, map_map. apply map_ext. intros i. f_equal.
+           replace (j + N.of_nat (S i) + 1) with (0 + N.of_nat i + 1 + 1 * ka) by lia.
+           rewrite N.mod_add by lia. reflexivity.
+Qed.
+
+Lemma client_ping_cadence ka n :
+  0 < ka ->
+  snd (k_run ka (k_init ka) (repeat KTick n)) = map (fun i => (N.of_nat i + 1) mod ka =? 0) (seq 0 n).
+Proof.
+  intros P. unfold k_init. assert (Z : ka =? 0 = false) by (apply N.eqb_neq; lia). rewrite Z. cbn [negb].
+  rewrite (ping_cadence ka P n 0 P). cbn [snd]. apply map_ext. intros i. now rewrite N.add_0_l.
+Qed.
+
+Lemma closed_never_pings ka : forall evs s,
+  k_open s = false -> Forall (fun p => p = false) (snd (k_run ka s evs)).
+Proof.
+  induction evs as [|e r IH]; intros s O; [constructor|].
+  cbn [k_run]. destruct e; cbn [k_step].
+  - destruct (k_running s).
+    + destruct (k_slept s + 1 <? ka).
+      * specialize (IH (mkK true (k_open s) (k_slept s + 1)) O).
+        destruct (k_run ka _ r). cbn [snd] in *. constructor; auto.
+      * rewrite O. specialize (IH (mkK false false 0) eq_refl).
+        destruct (k_run ka _ r). cbn [snd] in *. constructor; auto.
+    + specialize (IH s O). destruct (k_run ka s r). cbn [snd] in *. constructor; auto.
+  - specialize (IH (mkK (k_running s) false (k_slept s)) eq_refl).
+    destruct (k_run ka _ r). cbn [snd] in *. constructor; auto.
+Qed.
+
+Lemma no_keepalive_no_ping evs : Forall (fun p => p = false) (snd (k_run 0 (k_init 0) evs)).
+Proof.
+  unfold k_init. change (0 =? 0) with true. cbn [negb].
+  assert (G : forall evs s, k_running s = false -> Forall (fun p => p = false) (snd (k_run 0 s evs))).
+  { induction evs0 as [|e r IH]; intros s R; [constructor|].
+    cbn [k_run]. destruct e; cbn [k_step]; rewrite ?R.
+    - specialize (IH s R). destruct (k_run 0 s r). cbn [snd] in *. constructor; auto.
+    - specialize (IH (mkK false false (k_slept s)) eq_refl).
+      destruct (k_run 0 _ r). cbn [snd] in *. constructor; auto. }
+  apply G. reflexivity.
+Qed.
